@@ -111,6 +111,16 @@ func (t *connectTransaction) Auth(snPkt *snPkts1.Auth) error {
 }
 
 func (t *connectTransaction) WillTopic(snWillTopic *snPkts1.WillTopic) error {
+	// QoS 3 (-1) is defined for PUBLISH only and cannot be translated to MQTT.
+	if snWillTopic.QOS > 2 {
+		if err := t.SendConnack(snPkts1.RC_NOT_SUPPORTED); err != nil {
+			return err
+		}
+		err := fmt.Errorf("invalid will QoS: %d", snWillTopic.QOS)
+		t.Fail(err)
+		return err
+	}
+
 	t.mqConnect.WillQos = snWillTopic.QOS
 	t.mqConnect.WillRetain = snWillTopic.Retain
 	t.mqConnect.WillTopic = snWillTopic.WillTopic
